@@ -249,6 +249,13 @@ theorem readUintLoopR_sim (w : Nat) {r : Rd} {b : Bytes} {p : Nat} (l : Nat) (h 
       refine relG_ok 0 ⟨?_, rs_adv a⟩
       exact congrArg Val.nat (foldl_beDecMod w _ 0)
 
+theorem readNatLoopR_sim {r : Rd} {b : Bytes} {p : Nat} (l : Nat) (h : At r b p) :
+    RelG (PV b p) (readNatLoopR l r) (readNatLoop l (b.drop p)) := by
+  unfold readNatLoopR readNatLoop
+  by_cases hk : natLenOk l = true
+  · simp only [if_pos hk]; exact readUintLoopR_sim 8 l h
+  · simp only [if_neg hk]; exact relG_err 0
+
 theorem fixed1_sim (o : Bool) : SimRead (readKindR (.fixedUint 1 o)) (readKind (.fixedUint 1 o)) := by
   intro l ic r b p h
   rw [readKindR.eq_def, readKind.eq_def]
@@ -886,10 +893,10 @@ theorem readMapR_sim {rkR rvR : Nat → Bool → Rd → Res (Val × Rd)} {rk rv 
 mutual
 theorem readKindR_sim : ∀ k, SimRead (readKindR k) (readKind k)
   | .natural _ => fun l ic r b p h => by
-      simp only [readKindR, readKind]; exact readUintLoopR_sim 8 l h
+      simp only [readKindR, readKind]; exact readNatLoopR_sim l h
   | .time _ => fun l ic r b p h => by
       simp only [readKindR, readKind]
-      refine relG_bind (readUintLoopR_sim 8 l h) ?_
+      refine relG_bind (readNatLoopR_sim l h) ?_
       intro x y hxy
       obtain ⟨v, r'⟩ := x
       obtain ⟨v', rest'⟩ := y
